@@ -1033,6 +1033,54 @@ def fam_far_triangles(ctx):
                      'the plane through three points %.3g apart around %s does not contain them (nor their centroid)' % (e, f3(c)))
 
 
+def fam_nearparallel(ctx):
+    """skew lines whose directions are 1e-3 .. 1e-6 rad from parallel (not parallel: the distance is the length of the common perpendicular, known
+    by construction), and query points 1e-5 .. 1e-8 off a line far along it (closest() reports that distance)"""
+    SE3, Plucker, Plane = _lib()
+    u1 = unit(np.array([1.0, 2.0, -0.5]))
+    n, b = frame(u1)
+    for (pn, P1), th, h in itertools.product((('O', np.zeros(3)), ('g', np.array([3.7, -2.1, 5.3])), ('g30', np.array([37.0, -21.0, 53.0]))), (1e-3, 1e-4, 1e-5, 1e-6), (0.3, 1e-2, 2.0)):
+        u2 = unit(math.cos(th) * u1 + math.sin(th) * b)
+        P2 = P1 + h * n + 0.7 * u2
+        cid = 'C19/nearparallel/pt=%s/th=%g/h=%g' % (pn, th, h)
+        if ctx.want(cid):
+            ctx.case(cid, key=cid)
+            p = dict(method='distance', rel='skew', th=th, h=h, what='near-parallel')
+            for o1, o2, lab in ((1, 1, '12'), (-1, 1, '12-'), (1, 1, '21')):
+                L1, L2 = Plucker.PointDir(P1.copy(), o1 * u1), Plucker.PointDir(P2.copy(), o2 * u2)
+                ok, d = call((L2.distance if lab == '21' else L1.distance), (L1 if lab == '21' else L2))
+                if not ok:
+                    ctx.fail(cid, 'Plucker.distance', 'raises:' + type(d).__name__, p, '%r' % (d,))
+                    break
+                if not abs(float(d) - h) <= 1e-9 * max(1.0, h, float(np.abs(P2).max())):
+                    ctx.fail(cid, 'Plucker.distance', 'mismatch', dict(p, order=lab), 'lines %g rad from parallel, %g apart: distance() = %.12g' % (th, h, float(d)))
+                    break
+    L = Plucker.PointDir(np.array([0.5, -1.0, 2.0]), u1)
+    for lam, off in itertools.product((0.7, 30.0, 300.0), (0.0, 1e-8, 1e-7, 1e-5, 1e-3)):
+        cid = 'C19/nearline/lam=%g/off=%g' % (lam, off)
+        if not ctx.want(cid):
+            continue
+        ctx.case(cid, key=cid)
+        foot = np.array([0.5, -1.0, 2.0]) + lam * u1
+        x = foot + off * n
+        p = dict(method='closest', what='near-line', lam=lam, off=off)
+        ok, r = call(L.closest, x.copy())
+        if not ok:
+            ctx.fail(cid, 'Plucker.closest', 'raises:' + type(r).__name__, p, '%r' % (r,))
+            continue
+        try:
+            cands = [(np.asarray(r[0], dtype=float).ravel(), float(r[1])), (np.asarray(r[1], dtype=float).ravel(), float(r[0]))] if np.ndim(r[0]) else [(np.asarray(r[1], dtype=float).ravel(), float(r[0]))]
+        except Exception:
+            cands = []
+            try:
+                cands = [(np.asarray(r[0], dtype=float).ravel(), float(r[1]))]
+            except Exception:
+                pass
+        sc = max(1.0, float(np.abs(x).max()))
+        if not any(pt.shape == (3,) and norm(pt - foot) <= 1e-9 * sc and abs(dd - off) <= 1e-9 * sc for pt, dd in cands):
+            ctx.fail(cid, 'Plucker.closest', 'mismatch', p, 'point %g off the line at parameter %g: closest() = %r' % (off, lam, r))
+
+
 def fam_reuse(ctx, tier, seed):
     """the SAME Plane / Plucker objects used in several operations in a row (added after a seeded change that rescaled a
     Plane's normal in place): every result must be what elementary geometry gives for the defining data"""
@@ -1126,6 +1174,7 @@ def run_shard(ctx, shard):
     if kind == 'reuse':
         fam_reuse(ctx, tier, seed)
         fam_far_triangles(ctx)
+        fam_nearparallel(ctx)
         return
     if kind == 'etype':
         fam_etypes(ctx)
